@@ -4,7 +4,8 @@ package server
 // holds on two keys with requests that come and go at once, so that Lock objects are returned to the
 // shard's pool and taken again in every order: LOCK key1 by L1 (re-entrant, E = 1000 s), LOCK key2 by L2,
 // a value-only LOCK on key1 by L3 (Expried 0 with a SET: it takes nothing and is gone at once),
-// a LOCK on key1 by L3 that holds (Count 1), UNLOCK of L1 (all levels), UNLOCK of L2, UNLOCK of L3.
+// a LOCK on key1 by L3 that holds (Count 1), UNLOCK of L1 (all levels), UNLOCK of L2, UNLOCK of L3, UNLOCK of
+// one level of L1 (Rcount 1), the same with the priority bit in the timeout flags.
 // A fresh instance on the same directory must hold exactly what the first one held: per key the
 // same LockIds and depths, and the same value.
 
@@ -28,7 +29,7 @@ func vfH_C07_program() {
 		return c
 	}
 	for s := 0; s < 5; s++ {
-		switch vfChoice(vfName("op", s), 7) {
+		switch vfChoice(vfName("op", s), 9) {
 		case 0:
 			env.lock(0, lockCmd(k1, 1, 1000))
 		case 1:
@@ -48,6 +49,16 @@ func vfH_C07_program() {
 			env.unlock(0, u)
 		case 6:
 			u := env.newCmd(protocol.COMMAND_UNLOCK, k1, vfLockId(3))
+			env.unlock(0, u)
+		case 7:
+			// one level of L1's re-entrant hold
+			u := env.newCmd(protocol.COMMAND_UNLOCK, k1, vfLockId(1))
+			u.Rcount = 1
+			env.unlock(0, u)
+		case 8:
+			// the same request with the priority bit set in its timeout flags (Rcount then is a priority, not a level count)
+			u := env.newCmd(protocol.COMMAND_UNLOCK, k1, vfLockId(1))
+			u.Rcount, u.TimeoutFlag = 1, protocol.TIMEOUT_FLAG_RCOUNT_IS_PRIORITY
 			env.unlock(0, u)
 		}
 		vfDrainAof(env.db)
